@@ -131,10 +131,14 @@ type TermStore struct {
 	False  *Term
 	ufs    map[string]string // UF name -> declaration
 	ufOrd  []string
+	bitMemo map[*Term][]bitRef
+	aff     map[*Term]*affine
+	par     map[*Term]parity
+	noGauss bool
 }
 
 func NewTermStore() *TermStore {
-	ts := &TermStore{tab: make(map[termKey]*Term, 1<<12), ufs: map[string]string{}}
+	ts := &TermStore{tab: make(map[termKey]*Term, 1<<12), ufs: map[string]string{}, bitMemo: map[*Term][]bitRef{}, aff: map[*Term]*affine{}, par: map[*Term]parity{}}
 	ts.True = ts.Bool(true)
 	ts.False = ts.Bool(false)
 	return ts
@@ -288,6 +292,11 @@ func (ts *TermStore) Eq(a, b *Term) *Term {
 				return a
 			}
 			return ts.Not(a)
+		}
+	}
+	if len(ts.par) > 0 {
+		if r, ok := ts.parEq(a, b); ok {
+			return r
 		}
 	}
 	if a.ID > b.ID {
@@ -506,7 +515,12 @@ func (ts *TermStore) Bin(op Op, a, b *Term) *Term {
 			a, b = b, a
 		}
 	}
-	return ts.mk(op, a.Sort, a, b, nil, 0, 0, "")
+	t := ts.mk(op, a.Sort, a, b, nil, 0, 0, "")
+	switch op {
+	case OBAnd, OBOr, OBXor, OShl, OLShr:
+		return ts.normBits(t)
+	}
+	return t
 }
 
 func (ts *TermStore) Cmp(op Op, a, b *Term) *Term {
@@ -564,7 +578,7 @@ func (ts *TermStore) Zext(a *Term, w int) *Term {
 	if a.IsConst() {
 		return ts.BVConst(w, a.C)
 	}
-	return ts.mk(OZext, BV(w), a, nil, nil, uint32(w), 0, "")
+	return ts.normBits(ts.mk(OZext, BV(w), a, nil, nil, uint32(w), 0, ""))
 }
 
 func (ts *TermStore) Sext(a *Term, w int) *Term {
@@ -591,7 +605,7 @@ func (ts *TermStore) Extract(a *Term, hi, lo int) *Term {
 	if (a.Op == OZext || a.Op == OSext) && lo == 0 && w <= int(a.A[0].Sort.W) {
 		return ts.Extract(a.A[0], hi, 0)
 	}
-	return ts.mk(OExtr, BV(w), a, nil, nil, uint32(hi)<<8|uint32(lo), 0, "")
+	return ts.normBits(ts.mk(OExtr, BV(w), a, nil, nil, uint32(hi)<<8|uint32(lo), 0, ""))
 }
 
 func (ts *TermStore) Concat(a, b *Term) *Term {
@@ -599,7 +613,7 @@ func (ts *TermStore) Concat(a, b *Term) *Term {
 	if a.IsConst() && b.IsConst() {
 		return ts.BVConst(w, a.C<<b.Sort.W|b.C)
 	}
-	return ts.mk(OConcat, BV(w), a, b, nil, 0, 0, "")
+	return ts.normBits(ts.mk(OConcat, BV(w), a, b, nil, 0, 0, ""))
 }
 
 // ---- floats
